@@ -12,6 +12,9 @@ import MpVerif.C04.Trace
                                                  -> `ok <node>: v v v | <node>: ...` or `raise`
          node contents persist between calls exactly as in `session` (each call = `runFrom prev`)
     trace <pre|post> <kind> <node> <idx> <nloaded> <node>*   -> symbolic origin of a cell (see Trace.lean)
+    sources <node> <idx> <nloaded> <node>*   -> `sources ok n:i ...` (m2mSourcesRev + srcsUnwritten) | `sources none` | `sources written`
+    reach <kind> <unode> <uidx> <tnode> <tidx> <nloaded> <node>*
+          -> `reach <reachPost (entries before the first writer of t) u t> <tracePost of t in the remaining entries>`
 -/
 open MpVerif.C04
 
@@ -151,6 +154,28 @@ def handle (st : DState) (toks : List String) : DState × String :=
         | .pre => tracePre kind zero st.g.entries.reverse (node, idx)
       (st, "trace " ++ (match o with | some o => o.show | none => "none"))
     | _, _, _, _ => (st, "bad-op")
+  | "sources" :: tn :: ti :: nl :: loaded =>
+    match nats [tn, ti, nl], nats loaded with
+    | some [tn, ti, nl], some loaded =>
+      if loaded.length ≠ nl then (st, "bad-op") else
+      let zero : Cell → Bool := fun c => !loaded.contains c.1
+      match m2mSourcesRev zero st.g.entries.reverse (tn, ti) with
+      | some us => if srcsUnwritten st.g.entries us then
+            (st, "sources ok " ++ " ".intercalate (us.map (fun u => s!"{u.1}:{u.2}")))
+          else (st, "sources written")
+      | none => (st, "sources none")
+    | _, _ => (st, "bad-op")
+  | "reach" :: kind :: un :: ui :: tn :: ti :: nl :: loaded =>
+    match parseKind kind, nats [un, ui, tn, ti, nl], nats loaded with
+    | some kind, some [un, ui, tn, ti, nl], some loaded =>
+      if loaded.length ≠ nl then (st, "bad-op") else
+      let zero : Cell → Bool := fun c => !loaded.contains c.1
+      let t : Cell := (tn, ti)
+      let a := st.g.entries.takeWhile (fun e => !e.postWrites t)
+      let b := st.g.entries.dropWhile (fun e => !e.postWrites t)
+      let o := tracePost kind zero b t
+      (st, s!"reach {if reachPost a (un, ui) t then 1 else 0} " ++ (match o with | some o => o.show | none => "none"))
+    | _, _, _ => (st, "bad-op")
   | _ => (st, "bad-op")
 
 partial def loop (h out : IO.FS.Stream) (st : DState) : IO Unit := do
